@@ -4,6 +4,7 @@ import WebAuthnModel.Model.Cose
 import WebAuthnModel.Generated.Core
 import WebAuthnModel.Generated.TpmAndroid
 import WebAuthnModel.Model.KeyDesc
+import WebAuthnModel.Model.Tpm2
 /-
   The seven attestation statement verification procedures (attestation_statement*.go, certificate.go).
   Dependencies (x509, asn1, go-tpm, go-jose, crypto) are oracles; everything the repository itself decides —
@@ -253,19 +254,26 @@ def hardwareDetailsOK (der : Bytes) : Prog Bool := do
   | .san exts => pure (Tpm.detailsFromSan exts).isSome
   | _ => pure false
 
+/-- the TPM hash algorithms linked into the process (an answer of another shape is an empty table: no digest name decodes) -/
+def askHashes : Prog Tpm2.HashTable := do
+  match ← query .tpmHashes with
+  | .hashTable t => pure t
+  | _ => pure []
+
 def verifyTPM (o : AttObj) (cdHash : Bytes) : Prog (Option Result) := do
   match ← unmarshalCertificates o.stmt with
   | .ok certs =>
     match stmtBytes o.stmt "certInfo" with
     | none => pure none
     | some ciRaw =>
-    match ← query (.tpmCertInfo ciRaw) with
-    | .certInfo ci =>
+    let hashes ← askHashes
+    match Tpm2.certInfo hashes ciRaw with
+    | some ci =>
       match stmtBytes o.stmt "pubArea" with
       | none => pure none
       | some paRaw =>
-      match ← query (.tpmPubArea paRaw) with
-      | .pubArea pa =>
+      match Tpm2.pubArea paRaw with
+      | some pa =>
         match attestedAuthData o with
         | none => pure none
         | some (_, acd) =>
@@ -290,8 +298,8 @@ def verifyTPM (o : AttObj) (cdHash : Bytes) : Prog (Option Result) := do
         match ci.name with
         | .digest nameAlg nameVal =>
           if nameAlg ≠ pa.nameAlg then pure none else
-          match ← query (.tpmAlgHash nameAlg) with
-          | .nat h =>
+          match Tpm2.hashOf hashes nameAlg with
+          | some h =>
             if !(← hashIsEqual h paEnc nameVal) then pure none else
             match ci.encoded with
             | none => pure none
@@ -305,10 +313,10 @@ def verifyTPM (o : AttObj) (cdHash : Bytes) : Prog (Option Result) := do
               else if !c.unknownEKUs.contains Generated.Core.oidAIKCertificate then pure none
               else if c.isCA then pure none
               else pure (some ⟨"AttCA", der :: rest.map (·.1)⟩)
-          | _ => pure none
+          | none => pure none
         | _ => pure none
-      | _ => pure none
-    | _ => pure none
+      | none => pure none
+    | none => pure none
   | _ => pure none
 
 /-! ### android-safetynet -/
